@@ -519,6 +519,9 @@ func (propC15) Judge(sc *Scenario) *Verdict {
 			if sc.Ops[i].Kind == "parse" {
 				dop.Argv = sc.Ops[i].Argv
 			}
+			if i == 0 || i == len(sc.Ops)-1 {
+				sc5.Ops = append(sc5.Ops, Op{Kind: "decoy", Sibling: true})
+			}
 			sc5.Ops = append(sc5.Ops, dop, sc.Ops[i])
 		}
 		o := Execute(&sc5, sc.Scheds[0])
